@@ -14,6 +14,7 @@ modelled natives (Model/Ledger/NativeSys.lean).
 import NeoModel.Base.Proto
 import NeoModel.Base.Hex
 import NeoModel.Model.Ledger.NativeSys
+import NeoModel.Model.Ledger.Whitelist
 open NeoModel NeoModel.Ledger NeoModel.Ledger.Natives
 
 structure DState where
@@ -24,6 +25,10 @@ structure DState where
   nextOther : Nat := 1
   a : NNode := genesisNode { committeeSize := 1, validators := 1, standby := [] } (Acct.other 0)
   b : NNode := genesisNode { committeeSize := 1, validators := 1, standby := [] } (Acct.other 0)
+  wlA : Whitelist.State := Whitelist.empty   -- whitelisted fees as replica A / B cache them
+  wlB : Whitelist.State := Whitelist.empty
+  wlPending : List (Option Whitelist.Op) := []  -- whitelist effect of each pending transaction (applied if it HALTs)
+  methods : List String := []     -- method names seen (index = method id)
   pending : List Tx := []         -- transactions of the block being read
   height : Nat := 0
 
@@ -71,7 +76,10 @@ def joinOr (sep : String) (l : List String) : String :=
 def idxList (s : DState) (ks : List Key) : String :=
   joinOr "." (ks.map fun r => toString (indexOfRank s r))
 
-def obsNode (s : DState) (n : NNode) : String :=
+def wlStr (s : DState) (l : List (Whitelist.WKey × Int)) : String :=
+  joinOr "," (sortStr (l.map fun ((c, m), fee) => s!"{tokOf s (Acct.other c)}.{s.methods.getD m "?"}:{fee}"))
+
+def obsNode (s : DState) (n : NNode) (wl : Whitelist.State) : String :=
   match n.read () with
   | none => "?"
   | some st =>
@@ -85,9 +93,9 @@ def obsNode (s : DState) (n : NNode) : String :=
         | none => "-"
         | some k => toString (indexOfRank s k)
       s!"{tokOf s a}:{b.balance}:{v}")
-    s!"h={n.height} fpb={g.feePerByte} eff={g.execFeeFactor} sp={g.storagePrice * 10000} blocked={joinOr "," blocked} cand={joinOr "," cand} vc={st.votersCount} cmt={joinOr "," cmt} ccmt={idxList s g.committee} nv={idxList s g.nextValidators} nenv={idxList s g.newEpochValidators} neo={joinOr "," neo}"
+    s!"h={n.height} wlc={wlStr s wl.cache} wls={wlStr s wl.store} fpb={g.feePerByte} eff={g.execFeeFactor} sp={g.storagePrice * 10000} blocked={joinOr "," blocked} cand={joinOr "," cand} vc={st.votersCount} cmt={joinOr "," cmt} ccmt={idxList s g.committee} nv={idxList s g.nextValidators} nenv={idxList s g.newEpochValidators} neo={joinOr "," neo}"
 
-def obsBoth (s : DState) : String := s!"{obsNode s s.a} | {obsNode s s.b}"
+def obsBoth (s : DState) : String := s!"{obsNode s s.a s.wlA} | {obsNode s s.b s.wlB}"
 
 def parseInt (t : String) : Int :=
   if t.startsWith "-" then -((dropS t 1).toNat?.getD 0 : Nat) else ((t.toNat?.getD 0 : Nat) : Int)
@@ -146,9 +154,46 @@ def parseTx (s : DState) (ws : List String) : DState × Option Tx :=
     | "kv.destroy", [c] =>
       let (s, x) := acctOf s c
       mk s (.destroy x)
+    | "policy.recoverFund.neo", [a, t, pre] =>
+      let (s, x) := acctOf s a
+      let (s, y) := acctOf s t
+      mk s (.recoverNeo x y (pre == "pre=ok"))
+    | "policy.setWhitelistFeeContract", c :: _ =>
+      let (s, x) := acctOf s c
+      mk s (.committeeAbout x)
+    | "policy.removeWhitelistFeeContract", c :: _ =>
+      let (s, x) := acctOf s c
+      mk s (.committeeAbout x)
     | "fault", [] => mk s .fault
     | _, _ => mk s .other
   | _ => (s, none)
+
+def acctId : Acct → Nat
+  | .other n => n
+  | .key k => 1000000 + k
+
+def methodId (s : DState) (m : String) : DState × Nat :=
+  match s.methods.findIdx? (· == m) with
+  | some i => (s, i)
+  | none => ({ s with methods := s.methods ++ [m] }, s.methods.length)
+
+/-- the whitelist effect of a transaction line (if the transaction HALTs). -/
+def wlOpOf (s : DState) (ws : List String) : DState × Option Whitelist.Op :=
+  match ws with
+  | _ :: _ :: "policy.setWhitelistFeeContract" :: c :: m :: fee :: _ =>
+    let (s, a) := acctOf s c
+    let (s, mi) := methodId s m
+    (s, some (.set (acctId a, mi) (parseInt fee)))
+  | _ :: _ :: "policy.removeWhitelistFeeContract" :: c :: m :: _ =>
+    let (s, a) := acctOf s c
+    let (s, mi) := methodId s m
+    (s, some (.remove (acctId a, mi)))
+  | _ :: _ :: "kv.destroy" :: c :: _ =>
+    let (s, a) := acctOf s c
+    (s, some (.clean (acctId a)))
+  | _ => (s, none)
+
+def wlApply (w : Whitelist.State) (ops : List Whitelist.Op) : Whitelist.State := Whitelist.run w ops
 
 def stepBoth (s : DState) (st : Step Unit (List Tx) Unit) : DState :=
   { s with a := step (nativeSys s.cfg) s.a st, b := step (nativeSys s.cfg) s.b st }
@@ -163,7 +208,7 @@ def dstep (s : DState) (ws : List String) : DState × String :=
     let g := genesisNode cfg (Acct.other 0)
     ({ s with cfg := cfg, nkeys := n.toNat?.getD 0, rank := rk, a := g, b := g }, "ok")
   | ["genesis"] => (s, obsBoth s)
-  | ["block", h, _] => ({ s with pending := [], height := h.toNat?.getD 0 }, "ok")
+  | ["block", h, _] => ({ s with pending := [], wlPending := [], height := h.toNat?.getD 0 }, "ok")
   | "tx" :: rest =>
     match parseTx s rest with
     | (s, none) => (s, "bad-op")
@@ -177,12 +222,25 @@ def dstep (s : DState) (ws : List String) : DState × String :=
           match rs.getLast? with
           | some r => resStr r
           | none => "?"
-      ({ s with pending := txs }, r)
+      -- whitelist component: applies only if the transaction HALTs; a `remove` of an uncached entry panics
+      let (s, wo) := wlOpOf s rest
+      let halted := r.startsWith "halt"
+      let wlNow := wlApply s.wlA (s.wlPending.filterMap id)
+      let (r, wo) := match wo with
+        | some o => if halted then (match Whitelist.step wlNow o with
+            | some _ => (r, some o)
+            | none => ("fault", none)) else (r, none)
+        | none => (r, none)
+      -- a faulted transaction is discarded as a whole by the main model only if the model itself said so; a
+      -- whitelist panic turns a committee-gated no-op into a fault, which has no modelled effect either
+      ({ s with pending := txs, wlPending := s.wlPending ++ [wo] }, r)
   | ["endblock"] =>
     let s := stepBoth s (.addBlock s.pending)
-    let s := { s with a := step (nativeSys s.cfg) s.a .flush, pending := [] }
+    let wops := s.wlPending.filterMap id
+    let s := { s with a := step (nativeSys s.cfg) s.a .flush, pending := [], wlPending := [],
+                      wlA := wlApply s.wlA wops, wlB := wlApply s.wlB wops }
     (s, obsBoth s)
-  | ["restartB"] => ({ s with b := step (nativeSys s.cfg) s.b .restart }, "ok")
+  | ["restartB"] => ({ s with b := step (nativeSys s.cfg) s.b .restart, wlB := wlApply s.wlB [.restart] }, "ok")
   | ["flushB"] => ({ s with b := step (nativeSys s.cfg) s.b .flush }, "ok")
   | ["final"] => (s, obsBoth s)
   | ["aborted"] => (s, "aborted")
